@@ -18,12 +18,24 @@ RULE = ("SPD systems (Gram + shift, random sparse pattern; solver CG) and strict
         "any triplet order; right-hand sides plain / scaled by 2^-30..2^30 / zero; guesses zero / random / exact; tol 1e-3..1e-12; budget 20n+100. "
         "Demanded: Ok within 3n+10 iterations (mixed-sign diagonals: within the budget 20n+100), x finite, ||x - x_direct|| <= 2*tol*kappa*||x_direct|| -- only where attainable in f64 "
         "(tol >= 10*n*2^-52*kappa; with b = 0: tol >= 1e-13*||A||*||x0||). Exact guess (float residual exactly 0) and zero rhs + zero guess: Ok(0), x untouched. "
-        "Systems of order <= 12 also go through the correspondence check. distinct = distinct executor line; non-trivial = order >= 2.")
+        "Systems of order <= 12 also go through the correspondence check. SPECIAL-VALUES FAMILIES (same demands): struct-* = structured SPD / strictly diagonally "
+        "dominant matrices of order 1,2,3,4,5,8 (identity, 2I, I/2, -I, diagonal with equally spaced / two distinct / mixed-sign eigenvalues, tridiagonal symmetric / "
+        "Laplacian / nonsymmetric, dense upper / lower triangular, dense with equal or alternating entries, arrow, decoupled blocks, explicitly stored zeros) x right-hand "
+        "side (A*xt, ones, e_first, e_last, e_mid, alternating, unit norm (0.6,0.8), zero, -0.0) x guess (zero, -0.0, ones, exact, exact except one component, 2*xt, -xt) "
+        "x scale (A*2^sa, b*2^sb) x tol (also 2^-20, 2^-33, 3.7e-5, 6.1e-11); exact-zeros = diagonal / block matrices with b = ones or alternating (components of r "
+        "vanish exactly during the iteration); scaled-* = random SPD / SDD / mixed systems with A*2^(+-60,120,200), b*2^(0,+-100,+-sa), both signs for every class on "
+        "every run; history = executor kind it.seq: an operation on the matrix object (none, transpose twice, from_vecs, insert, scale by 2 or 1/2, x.clone()) then two "
+        "calls on the same matrix and x; the call with the budget 20n+100 carries the demands with the previous x as its guess. "
+        "extreme-scale = adversarial family of the RECORDED finding f64-square-range (5 systems per quick run, all five entry points): small SPD / strictly diagonally "
+        "dominant systems with b or A scaled by 2^+-(520..700) or a solution beyond the f64 range; a failure carries the key exactly when the INPUT has ||b||^2, the "
+        "square of an entry of b / x0 / A or a product A_ij x_j of the exact solution outside [2^-1022, 2^1024) (inputs in range fall through to the breakdown keys; histories never). "
+        "distinct = distinct executor line; non-trivial = order >= 2.")
 TRUSTED = ["Coq 8.16.1 kernel + vm_compute (primitive floats)", "Rust executor /verif/harness (kinds it.*)",
            "python driver: generators, numpy.linalg.solve / cond reference, stream comparators",
            "hand-written Gallina model coq/Model/Iter.v (on top of coq/Model/Sparse.v) tied to src/sparse.rs:303-616 by differential execution"]
 ASSUMPTIONS = ["Rust semantics of Vec/usize/f64 as modelled", "the iteration bound 3n+10 and the attainability rule are calibrated constants of the search, not theorems"]
 UNPROVED = ["convergence is proved in EXACT arithmetic only: cg_terminates_spd_R (SPD, every b, x0, tol >= 0, budget >= n: Ok k with k <= n, solved), cg_direct_solver_R, the same for symmetric strictly diagonally dominant matrices with positive diagonal (sdd_symmetric_is_posdef) and for BiCG on symmetric matrices (bicg_is_cg_on_symmetric); for arbitrary matrices bicg_breakdown_or_terminates (BiCG divides by zero or returns Ok within n+1 iterations); the exits of BiCGSTAB / QMR are characterised and the left-eigenvector class of the recorded breakdowns is a theorem. NOT proved: anything positive about BiCGSTAB / QMR beyond eigenvector and 1x1 starts, and every statement about the floating-point iteration (success within 3n+10, agreement with the direct solution to tol*cond): failing-input search only",
+            "RECORDED finding f64-square-range (same mechanism as C15: Vector<f64>::norm_2 squares its entries without scaling): 'right-hand sides of any scale' fails beyond 2^+-511 -- with ||b|| < 2^-511 every solver answers Ok(0) and leaves x at the guess, with ||b|| > 2^512 norm_2(b) = inf and the answer is Err(NaN) with x = NaN; entries of A beyond 2^+-511 overflow / underflow the dot products likewise; witnesses corpus/C09/kf_scale_underflow.json, kf_scale_overflow.json",
             "the degenerate-start theorems are over exact fields (any square-root function with sqrt 0 = 0); their f64 instances are covered by the tie and the search"]
 
 MANIFEST = dict(
@@ -34,7 +46,10 @@ MANIFEST = dict(
           "bicg_legacy_refuted (float instance: Err nan, x = nan on diag(2,3), b=(2,3), x0=(1,1)). The CONVERGENCE half (Ok within 3n+10 iterations on SPD / "
           "strictly diagonally dominant systems of condition <= 1e4, agreement with the direct solution) is NOT proved: it is a failing-input search against "
           "numpy on order <= 60, with the float model tied to the implementation on order <= 12. The search found a new failure class (exact Krylov "
-          "breakdowns of BiCG / BiCGSTAB / QMR on small-integer systems), recorded as three open findings keyed by the model's exit code."),
+          "breakdowns of BiCG / BiCGSTAB / QMR on small-integer systems), recorded as three open findings keyed by the model's exit code. The search space includes "
+          "structured matrices, joint power-of-two scaling of A and b (absolute thresholds show), one-entry / equal-entry / unit-norm / -0.0 right-hand sides, guesses exact "
+          "except in one component, and restarts (two calls on the same matrix object and x: executor kind it.seq, oracle only). Right-hand sides / matrices scaled by "
+          "2^+-(520..700) are searched as well; the failures there are the recorded finding f64-square-range (norm_2 squares its entries), keyed by the input alone."),
     note=("PARTIAL: the degenerate-start half and exact-arithmetic finite termination of CG / symmetric BiCG on SPD and symmetric diagonally dominant systems are theorems. Convergence of the floating-point Krylov iterations is searched, never proved; the iteration "
           "constant 3n+10 (positive-diagonal SDD and SPD; 20n+100 for mixed-sign diagonals) and the attainability rule tol >= 10 n eps kappa are calibrated."),
     technique="Coq proof over an abstract field (degenerate starts) + float-model/implementation differential execution + numpy reference search (convergence)",
@@ -94,7 +109,107 @@ def generate(rng, tier):
     for t in range(12 if quick else 60):
         n = g.range(2, 9) if t % 3 else g.range(10, maxn)
         emit(n, fams[t % len(fams)], "zero-rhs-guess", guess="random", rhs="zero")
+    cases.extend(gen_special(rng.fork("c09-special"), tier))
+    # extreme scale (recorded finding f64-square-range): failures on these inputs carry the key, decided from the input
+    for (sv, s, mi, tol, kap, fam) in extreme_systems(rng.fork("c09-extreme"), tier, lambda n: 20 * n + 100):
+        cases.extend(mk_cases(sv, s, mi, tol, "extreme-scale", tie=False, extra={"kappa": kap, "wellposed": True}))
     return finalize(cases, PID)
+
+# ----------------------------------------------------------------------------- special-values families (iterlib: structured catalogue)
+def kappa_of(A, n, fam):
+    if fam == "spd":
+        D = np.zeros((n, n))
+        for (i, j), v in A.items(): D[i, j] += v
+        return float(np.linalg.cond(D, 2))
+    return gershgorin_kappa(A, n)
+
+def gen_special(g, tier):
+    """Structured SPD / strictly diagonally dominant matrices (identity, diagonal with few distinct or equally spaced
+    eigenvalues, tridiagonal, triangular, dense with equal entries, arrow, decoupled blocks, explicit zeros) x right-hand
+    side class (known solution, ones, e_first / e_last / e_mid, alternating, unit norm, zero, -0.0) x guess class (zero,
+    -0.0, ones, exact, exact but one component, 2*xt, -xt) x scale of A and of b (powers of two) x tolerance form; and the
+    random families with A and b scaled.  All are well-posed members of the property's class: the same demands apply."""
+    out = []
+    quick = (tier == "quick")
+    orders = ["sorted", "shuffled", "reversed", "rowmajor"]
+    tols = [1e-3, 1e-6, 1e-9, 2.0 ** -20, 2.0 ** -33, 3.7e-5, 6.1e-11]
+    guesses = ["zero", "negzero", "ones"] + GUESS_XT
+    reps = 1 if quick else 6
+    idx = 0
+    for name in STRUCT_ALL:
+        for fam in struct_class(name):
+            for rep in range(reps):
+                n = g.choice(STRUCT_N)
+                sa, sb = g.choice(SCALES)
+                s = struct_system(name, n, g.choice(RHS_KINDS), g.choice(guesses), sa, sb, g.choice(orders), g)
+                s.info["fam"] = fam
+                kap = kappa_of(struct_matrix(name, n), n, fam)
+                if kap > KAPPA_MAX: continue
+                tol = g.choice(tols)
+                for sv in solvers_for(fam):
+                    out.extend(mk_cases(sv, s, 20 * n + 100, tol, "struct-" + name, nontrivial=(n >= 2),
+                                        extra={"kappa": kap, "wellposed": True}))
+    # exact zeros inside the residual: diagonal matrices with equally spaced / few distinct eigenvalues and a right-hand side
+    # of equal entries (after one step of CG on diag(1,2,3), b = ones the middle component of r is exactly 0)
+    for name in ["diag-ap", "diag-pairs", "block"]:
+        for n in ([g.choice([3, 4, 5, 8])] if quick else STRUCT_N):
+            for rk in ([g.choice(["ones", "alt"])] if quick else ["ones", "alt"]):
+                s = struct_system(name, n, rk, "zero", 0, 0, "sorted", g)
+                for fam in ["spd", "sdd"]:
+                    s2 = Sys(s.rows, s.cols, s.trip, s.b, s.x0, dict(s.info, fam=fam))
+                    kap = kappa_of(struct_matrix(name, n), n, fam)
+                    for sv in solvers_for(fam):
+                        out.extend(mk_cases(sv, s2, 20 * n + 100, g.choice([1e-6, 1e-9, 1e-12]), "exact-zeros", nontrivial=(n >= 2),
+                                            extra={"kappa": kap, "wellposed": True}))
+    # unit-norm right-hand sides with the zero guess (rho = (r, r) = 1 exactly at the first step: any test that compares a
+    # recurrence scalar with its initial value 1.0, or with the previous one, shows here); symmetric structures (no breakdown)
+    for name in (g.shuffle(STRUCT_BOTH)[:2] if quick else STRUCT_BOTH):
+        n = g.choice([3, 4, 5, 8])              # n >= 3: with e_mid the first AND the last component of the start residual vanish
+        for rk in ["e-first", "e-last", "e-mid", "unit"]:
+            s = struct_system(name, n, rk, g.choice(["zero", "negzero"]), g.choice([0, 0, 60, -60]), 0, "sorted", g)
+            for fam in ["spd", "sdd"]:
+                s2 = Sys(s.rows, s.cols, s.trip, s.b, s.x0, dict(s.info, fam=fam))
+                kap = kappa_of(struct_matrix(name, n), n, fam)
+                for sv in solvers_for(fam):
+                    out.extend(mk_cases(sv, s2, 20 * n + 100, g.choice(tols), "unit-rhs", nontrivial=True, tie=(not quick),
+                                        extra={"kappa": kap, "wellposed": True}))
+    # histories: an operation on the matrix object, then two solver calls on the same matrix and the same x (restart after a
+    # partial run, after Ok, after budget 0); symmetric positive definite AND strictly diagonally dominant matrices (every
+    # entry point is inside its class; BiCG is CG there, no Lanczos breakdown) and real-valued random SDD systems
+    pairs = g.shuffle([(a, b) for a in SOLVERS for b in SOLVERS])
+    for t, (s1, s2) in enumerate(pairs if not quick else pairs[:10]):
+        for rep in range(1 if quick else 4):
+            n = g.range(2, 8)
+            pre = g.choice(PRE_OPS[:7])              # not scale by -1 (leaves the class)
+            name = g.choice(STRUCT_BOTH)
+            s = struct_system(name, n, g.choice(["Axt", "ones", "e-last", "alt"]), g.choice(["zero", "ones", "negzero"]), 0, 0, "shuffled", g)
+            s.info["fam"] = "sdd"
+            kap = max(kappa_of(struct_matrix(name, n), n, "spd"), kappa_of(struct_matrix(name, n), n, "sdd"))
+            first = g.choice([0, 1, 2, n // 2, 20 * n + 100, 20 * n + 100])
+            out.append(mk_seq_case(pre, s, g.choice(tols), [s1, s2], [first, 20 * n + 100], "history",
+                                   extra={"kappa": kap, "wellposed": True}))
+    # the random families with every entry of A times 2^sa and the right-hand side times 2^sb
+    fams = ["spd", "sdd", "sdd", "sdd-mixed"]
+    for t in range(16 if quick else 80):
+        n = g.range(2, 10)
+        fam = fams[t % len(fams)]                             # every class with both signs of the exponent, twice
+        ints = g.chance(1, 2)
+        r = gen_system(g, n, fam, ints)
+        if r is None: continue
+        A, kap = r
+        sa = g.choice([60, 120, 200]) * (1 if (t // len(fams)) % 2 == 0 else -1)
+        sb = g.choice([0, 0, 100, -100, sa, -sa]) if abs(sa) < 200 else g.choice([0, sa])
+        trip = triplets_of(g, scale_system(A, sa))
+        gk = g.choice(["zero", "random", "exact"])
+        b, x0, xt = rhs_and_guess(g, n, trip, gk, "plain", ints)
+        f = 2.0 ** (sb - sa)                                   # scale of the solution
+        b = csc_mul(trip, n, [v * f for v in xt])
+        x0 = [v * f for v in x0]
+        s = Sys(n, n, trip, b, x0, {"fam": fam, "sa": sa, "sb": sb, "guess": gk})
+        tol = pick_tol(g, 3, 12)
+        for sv in solvers_for(fam):
+            out.extend(mk_cases(sv, s, 20 * n + 100, tol, "scaled-" + fam, extra={"kappa": kap, "wellposed": True}))
+    return out
 
 case_from_json = iterlib.case_from_json
 
@@ -105,11 +220,35 @@ def oracle(case, items):
     m = case.meta
     if m.get("role") == "tie":
         return None          # judged through its oracle twin (same system, full answer)
+    if m.get("role") == "seq":
+        # a history: calls with the full budget 20n+100 carry the demands of the property, their guess being what the
+        # previous call left in x (a call with a smaller budget only prepares the next one)
+        if not m.get("wellposed"):
+            return None
+        answers = split_seq(items, len(m["solvers"]))
+        if answers is None:
+            return "a solver panicked in the history %r on a well-posed system" % (m["solvers"],)
+        s = seq_reference(Sys.from_json(m["sys"]), m["pre"])
+        x0 = list(s.x0)
+        for j, a in enumerate(answers):
+            if not all_finite(x0):
+                return None       # the previous (partial) call left no usable guess
+            if m["budgets"][j] >= 20 * s.rows + 100:
+                sj = Sys(s.rows, s.cols, s.trip, s.b, x0, s.info)
+                r = judge(m, sj, a, m["tol"], m["budgets"][j])
+                if r:
+                    return "history pre=%r, call %d (%s after %r): %s" % (m["pre"], j + 1, m["solvers"][j], m["solvers"][:j], r)
+            x0 = list(a.x)
+        return None
     a = Ans(items)
     s = Sys.from_json(m["sys"])
-    n, tol, maxit = s.rows, m["tol"], m["maxit"]
     if not m.get("wellposed"):
         return None
+    return judge(m, s, a, m["tol"], m["maxit"])
+
+def judge(m, s, a, tol, maxit):
+    """the demands of the property on one call on a well-posed system (m: kappa of the matrix)"""
+    n = s.rows
     if a.panic:
         return "solver panicked (%s) on a well-posed %dx%d system" % (a.panic, n, n)
     if len(a.x) != n: return "x has %d components, order %d" % (len(a.x), n)
@@ -146,8 +285,8 @@ def oracle(case, items):
     if a.k > bound:
         return "Ok(%d) needs more than %d*n+%d = %d iterations (n=%d, kappa %.3g, tol %.0e)" % (a.k, ITER_A, ITER_B, bound, n, kap, tol)
     xd = np.linalg.solve(A, np.array(s.b))
-    err = float(np.linalg.norm(np.array(a.x) - xd))
-    nxd = float(np.linalg.norm(xd))
+    err = norm2(list(np.array(a.x) - xd))          # norm2: the numpy value in the ordinary range, scaled form at extreme scale
+    nxd = norm2(list(xd))
     k2 = float(np.linalg.cond(A, 2))
     kk = max(kap, k2)
     if nb != 0.0:
@@ -161,6 +300,12 @@ def oracle(case, items):
     return None
 
 def finding_key(case, desc, decoded):
+    if case.meta.get("role") == "seq":
+        return None          # histories have no model twin: nothing is excused
+    # recorded finding f64-square-range: decided from the INPUT alone (||b||^2, a squared entry of b / x0 / A or a product
+    # A_ij x_j of the exact solution outside the normal f64 range); inputs in range fall through to the breakdown keys
+    if "sys" in case.meta and scale_out_of_range(Sys.from_json(case.meta["sys"])):
+        return KEY_SQUARE_RANGE
     if decoded is None or not ("no convergence" in desc or "not finite" in desc or "needs more than" in desc):
         return None
     return breakdown_key(case, decoded, PID)
